@@ -17,6 +17,7 @@ TIMESCALES = {
     "huge": lambda r: r * 1e300,
     "tiny": lambda r: r * 5e-324,
 }
+EXTRA_FLAG_BITS = (0, 1 << 17, 1 << 31, 1 << 1, (1 << 17) | (1 << 31))
 _ULP_A = math.nextafter(0.25, 1.0)
 GRIDS = {
     "int": lambda G: tuple(float(i) for i in range(G + 1)),
@@ -124,7 +125,9 @@ class Member:
         tc = tskit.TableCollection(self.L)
         t = self.times
         for u in range(self.N):
-            tc.nodes.add_row(flags=1 if self.flags[u] else 0, time=t[u])
+            # besides the sample bit most nodes carry application-defined flag bits (tskit reserves only
+            # bit 0): "is a sample" must be a test of that bit, never a comparison of the whole word
+            tc.nodes.add_row(flags=(1 if self.flags[u] else 0) | EXTRA_FLAG_BITS[u % len(EXTRA_FLAG_BITS)], time=t[u])
         for l, r, p, ch in self.edges():
             tc.edges.add_row(l, r, p, ch)
         return tc
